@@ -334,13 +334,21 @@ def check_inverse(fx, R, f, fwd):
     cond = deep_unwrap(sx(L['c']))
     capped = isinstance(cond, tuple) and cond[0] == '&&'
     simple = isinstance(cond, tuple) and cond[0] in ('>', '>=') and cond[1] == 'delta'
+    capped_simple = capped and len(cond) == 3 and any(isinstance(p_, tuple) and p_[0] in ('>', '>=') and p_[1] == 'delta' for p_ in cond[1:]) and \
+        any(isinstance(p_, tuple) and len(p_) == 3 and p_[0] in ('<', '<=', '!=') and isinstance(p_[1], str) and p_[1] != 'delta' for p_ in cond[1:])
     if simple:
         R.holds('F2', 'ECEFConverter::toWGS84:loop-exit', 'iterates while delta > tolerance', loc, 'E-STATE')
+    elif capped_simple:
+        R.holds('F2', 'ECEFConverter::toWGS84:loop-exit', 'iterates while delta > tolerance, at most a fixed number of times (what the cap leaves is decided by F8)', loc, 'E-STATE')
     else:
         R.undecided('F2', 'ECEFConverter::toWGS84:loop-exit', 'loop condition %s is not `delta > tolerance`' % (cond,))
     # ---- F4 stopping tolerance ----------------------------------------------------------------------
     cnode = strip_casts(L['c'])
     tol = const_value(cnode.get('r')) if cnode.get('k') == 'Bin' else None
+    if tol is None and capped_simple:
+        for y in walk(L['c']):
+            if isinstance(y, dict) and y.get('k') == 'Bin' and y.get('op') in ('>', '>=') and strip_casts(y['l']).get('name') == 'delta' and const_value(y.get('r')) is not None:
+                tol = const_value(y['r'])
     if tol is None:
         R.undecided('F4', 'ECEFConverter::toWGS84:tolerance', 'stopping tolerance is not a constant the front end folds')
     else:
@@ -365,6 +373,49 @@ def check_inverse(fx, R, f, fwd):
                 for y in walk(L['c']):
                     if isinstance(y, dict) and y.get('k') == 'Bin' and y.get('op') == part[0] and const_value(y.get('r')) is not None and strip_casts(y['l']).get('name') == part[1]:
                         capN = int(const_value(y['r'])) + (1 if part[0] == '<=' else 0)
+    # every initial guess the prologue can leave is iterated; one that is read from a member (`this.x`) carries the result of an EARLIER call: it is then the latitude of another point of the quantifier
+    # (0.01 rad = 64 km away, inside the 100 km of the local-frame statement as well)
+    inits8 = []
+    for st_p in pres:
+        v_ = st_p.locals.get(ids['latitude'])
+        if isinstance(v_, sp.Basic) and not any(str(v_) == str(u_) for (u_, _d) in inits8):
+            inits8.append((v_, ' && '.join(('' if c_[2] else '!') + '(' + c_[0] + ')' for c_ in st_p.cond)))
+    for (init8, desc8) in (inits8 if capN is not None else []):
+        carried = sorted(y_.name for y_ in init8.free_symbols if y_.name.startswith('this.') and not y_.name.startswith('this.ellipsoid_'))
+        if not carried:
+            continue
+        prevS = sp.Symbol('prevLatitude', real=True)
+        st8 = pres[0].copy()
+        st8.locals[ids['latitude']] = prevS
+        try:
+            lb8 = run_block([L['b']], [st8])
+            upd = lb8[0].locals.get(ids['latitude']) if len(lb8) == 1 else None
+        except sym.Unsupported:
+            upd = None
+        if not isinstance(upd, sp.Basic):
+            R.undecided('F8', 'ECEFConverter::toWGS84:capped-iteration:carried-start', 'the iteration starts from %s and its update is not readable' % carried)
+            continue
+        worst = None
+        try:
+            for la in [sp.pi * sp.nsimplify(d) / 180 for d in WIT['lat_deg']]:
+                w = {lat: sp.N(la, 50), lon: sp.Float('0.3', 50), h: sp.Float(100, 50), a: sp.Float(6378137, 50), e2: sp.Float('0.00669438', 50)}
+                x = w[lat] + sp.Float('0.01', 50)
+                f_ = substitute(upd).subs(w)
+                for _ in range(capN):
+                    x = f_.subs(prevS, x).evalf(50)
+                err = abs(float(x - w[lat]))
+                if worst is None or err > worst[0]:
+                    worst = (err, la)
+        except (TypeError, ValueError):
+            worst = None
+        if worst is None:
+            R.undecided('F8', 'ECEFConverter::toWGS84:capped-iteration:carried-start', 'capped iteration from a carried start not evaluable on the witness points')
+        elif worst[0] > 1.2e-9:
+            R.violated('F8', 'ECEFConverter::toWGS84:capped-iteration:carried-start', 'on the path [%s] the latitude iteration starts from %s - what an EARLIER call left - and runs at most %d times: started from the latitude '
+                       'of a point 0.01 rad (64 km) away it is still %.3g rad (about %.2g m) off at latitude %s deg (statement: 1e-9 rad / 1 mm); each pass gains a factor of about 150, so the result of a conversion '
+                       'depends on which point was converted before it' % (desc8, ', '.join(carried), capN, worst[0], worst[0] * 6.4e6, sp.N(worst[1] * 180 / sp.pi, 4)), loc, 'E-INT')
+        else:
+            R.holds('F8', 'ECEFConverter::toWGS84:capped-iteration:carried-start', '%d passes from a start 0.01 rad away leave at most %.2g rad' % (capN, worst[0]), loc, 'E-INT')
     if capN is not None and isinstance(init_lat, sp.Basic):
         prevS = sp.Symbol('prevLatitude', real=True)
         st8 = pres[0].copy()
